@@ -232,10 +232,19 @@ func (p *Processor) ChargingDataUpdate(
 	ue.CULock.Lock()
 	defer ue.CULock.Unlock()
 
+	// reject an unknown (or already released) charging session before anything is charged
+	cdr := ue.Cdr[chargingSessionId]
+	if cdr == nil {
+		logger.ChargingdataPostLog.Errorf("CHFUe[%s] has no charging session [%s]", ueId, chargingSessionId)
+		problemDetails := &models.ProblemDetails{
+			Status: http.StatusNotFound,
+			Cause:  "RESOURCE_URI_STRUCTURE_NOT_FOUND",
+		}
+		return nil, problemDetails
+	}
+
 	// Online charging: Rate, Account, Reservation
 	responseBody, partialRecord := p.BuildConvergedChargingDataUpdateResopone(chargingData)
-
-	cdr := ue.Cdr[chargingSessionId]
 
 	cdrBytes, errCdrBer := asn.BerMarshalWithParams(&cdr, "explicit,choice")
 	if errCdrBer != nil {
@@ -348,9 +357,18 @@ func (p *Processor) ChargingDataRelease(
 	ue.CULock.Lock()
 	defer ue.CULock.Unlock()
 
-	sessionChargingReservation(chargingData)
-
+	// reject an unknown (or already released) charging session before anything is charged
 	cdr := ue.Cdr[chargingSessionId]
+	if cdr == nil {
+		logger.ChargingdataPostLog.Errorf("CHFUe[%s] has no charging session [%s]", ueId, chargingSessionId)
+		problemDetails := &models.ProblemDetails{
+			Status: http.StatusNotFound,
+			Cause:  "RESOURCE_URI_STRUCTURE_NOT_FOUND",
+		}
+		return problemDetails
+	}
+
+	sessionChargingReservation(chargingData)
 
 	err := p.UpdateCDR(cdr, chargingData)
 	if err != nil {
